@@ -3,7 +3,8 @@ from pyvc.api import *
 
 M = ModuleSpec('src/pharmpy/model/statements.py', prop='C10')
 Sym = Opaque('Sym')
-Stmt = Opaque('Stmt', is_assignment=Bool, symbol=Sym, is_ode=Bool)
+SymSet = Opaque('SymSet')
+Stmt = Opaque('Stmt', is_assignment=Bool, symbol=Sym, is_ode=Bool, rhs_symbols=SymSet, amounts=SymSet)
 ExprT = Opaque('ExprT')
 
 TRUSTED = ['statements are opaque values with `is_assignment` (isinstance(.., Assignment)) and `symbol`; '
@@ -14,7 +15,7 @@ TRUSTED = ['statements are opaque values with `is_assignment` (isinstance(.., As
 def _symbolic():
     import ast
     import z3
-    from pyvc.symexec import Val, BoolV, OutOfSubset
+    from pyvc.symexec import Val, BoolV, OutOfSubset, PyTuple, NONE
     from pyvc.sym import TBool, TSeq, TInt, TOption
     from pyvc import sym
 
@@ -59,6 +60,34 @@ def _symbolic():
     @M.intrinsic('attr:_statements')
     def _stmts(ex, st, args, kwargs, node):
         return args[0] if isinstance(args[0], Val) and isinstance(args[0].ty, TSeq) else NotImplemented
+
+    # ---- symbol sets are abstract: membership and disjointness are uninterpreted predicates; the dependency
+    # graph is the set of its edges (pairs of statement indices)
+    symset = SymSet.resolve()
+    MEM = z3.Function('symset_member', symset.sort(), symt.sort(), z3.BoolSort())
+    DISJ = z3.Function('symset_disjoint', symset.sort(), symset.sort(), z3.BoolSort())
+    from pyvc.symexec import MSet
+    from pyvc.sym import TTuple
+    EDGE = TTuple(TInt, TInt)
+
+    @M.intrinsic('contains')
+    def _contains(ex, st, args, kwargs, node):
+        c, x = args
+        if isinstance(c, Val) and c.ty.key() == 'SymSet' and isinstance(x, Val) and x.ty.key() == 'Sym':
+            return Val(TBool, MEM(c.t, x.t))
+        return NotImplemented
+
+    M.intrinsics['set'] = lambda ex, st, a, kw, n: a[0]          # set(statement.amounts): the same abstract set
+    M.intrinsics['method:isdisjoint'] = lambda ex, st, a, kw, n: Val(TBool, DISJ(a[0].t, a[1].t))
+    M.intrinsics['symset_disjoint'] = lambda ex, st, a, kw, n: Val(TBool, DISJ(a[0].t, a[1].t))
+    M.intrinsics['nx.DiGraph'] = lambda ex, st, a, kw, n: MSet(EDGE, z3.K(EDGE.sort(), z3.BoolVal(False)))
+
+    @M.intrinsic('method:add_edge')
+    def _add_edge(ex, st, args, kwargs, node):
+        g = args[0]
+        e = ex.to_term(PyTuple([args[1], args[2]]), EDGE, st)
+        g.t = z3.Store(g.t, e, True)
+        return NONE
 
     # ---- library model: next(map(f, filter(g, it)), default) -- the image under f of the FIRST item of `it`
     # that satisfies g, or `default` when there is none (lazy combinators; f and g are the real lambdas of
@@ -272,4 +301,26 @@ M.contract(
     params={'self': Seq(Stmt)},
     returns=Seq(Stmt),
     ensures=['implies(not any(s.is_ode for s in self), result == self)'] + AFTER,
+)
+
+
+# ---- the dependency graph: statement a points at EVERY earlier statement b it reads (an earlier assignment
+# of a symbol on a's right-hand side, or an earlier ODE system one of whose amounts a reads) -- for all
+# statement lists; symbol sets abstract
+USES = ('(self[b].symbol in self[a].rhs_symbols if self[b].is_assignment'
+        ' else not symset_disjoint(self[a].rhs_symbols, self[b].amounts))')
+M.contract(
+    'Statements._create_dependency_graph',
+    params={'self': Seq(Stmt)},
+    requires=['all(s.is_assignment or s.is_ode for s in self)'],
+    ensures=[f'all(all(((a, b) in result) == (b < a and {USES}) for b in range(len(self))) for a in range(len(self)))'],
+    loops=[
+        Loop(counter='k0', inv=[
+            f'all(all(((a, b) in graph) == (a > len(self) - 1 - k0 and b < a and {USES}) for b in range(len(self))) for a in range(len(self)))',
+        ]),
+        Loop(counter='k1', inv=[
+            f'all(all(implies(a != i, ((a, b) in graph) == (a > i and b < a and {USES})) for b in range(len(self))) for a in range(len(self)))',
+            f'all(((i, b) in graph) == (b > i - 1 - k1 and b < i and {USES.replace("self[a]", "self[i]")}) for b in range(len(self)))',
+        ]),
+    ],
 )
